@@ -448,8 +448,28 @@ impl Driver {
         }
     }
 
+    /// Make sure the kernel watches the notifier, so that a wake-up from another
+    /// thread produces a completion.
+    fn arm_notifier(&mut self) -> io::Result<()> {
+        if self.flags.contains(DriverFlags::NEED_PUSH_NOTIFIER) {
+            #[allow(clippy::useless_conversion)]
+            self.push_raw(
+                PollAdd::new(Fd(self.notifier.as_raw_fd()), libc::POLLIN as _)
+                    .multi(true)
+                    .build()
+                    .user_data(Self::NOTIFY)
+                    .into(),
+            )?;
+            self.flags.remove(DriverFlags::NEED_PUSH_NOTIFIER);
+        }
+        Ok(())
+    }
+
     pub fn flush(&mut self) -> bool {
-        let succeed = self.submit_auto(Some(Duration::ZERO), false).is_ok();
+        // An external event loop waits on the ring right after `flush`, before it
+        // ever calls `poll`: the notifier has to be armed here as well.
+        let succeed =
+            self.arm_notifier().is_ok() && self.submit_auto(Some(Duration::ZERO), false).is_ok();
         // If submission failed, return true to let the driver wake up immediately.
         !succeed | self.notifier.reset()
     }
@@ -465,17 +485,7 @@ impl Driver {
 
         let need_wait = !self.notifier.reset();
 
-        if self.flags.contains(DriverFlags::NEED_PUSH_NOTIFIER) {
-            #[allow(clippy::useless_conversion)]
-            self.push_raw(
-                PollAdd::new(Fd(self.notifier.as_raw_fd()), libc::POLLIN as _)
-                    .multi(true)
-                    .build()
-                    .user_data(Self::NOTIFY)
-                    .into(),
-            )?;
-            self.flags.remove(DriverFlags::NEED_PUSH_NOTIFIER);
-        }
+        self.arm_notifier()?;
 
         self.submit_auto(timeout, need_wait)?;
 
